@@ -95,17 +95,24 @@ func compare(a, b any) int {
 	case int:
 		return a - b.(int)
 	case string:
-		a = strings.ToLower(a)
-		b := strings.ToLower(b.(string))
-		if a == b {
-			return 0
-		}
+		rawA, rawB := a, b.(string)
+		a = strings.ToLower(rawA)
+		b := strings.ToLower(rawB)
 		for i := 0; i < len(a) && i < len(b); i++ {
 			if a[i] != b[i] {
-				return stringWeights[a[i]] - stringWeights[b[i]]
+				if w := stringWeights[a[i]] - stringWeights[b[i]]; w != 0 {
+					return w
+				}
+				// Bytes of equal weight (e.g. outside the alphabet) fall back
+				// to their byte order so that distinct strings never tie.
+				return int(a[i]) - int(b[i])
 			}
 		}
-		return len(a) - len(b)
+		if len(a) != len(b) {
+			return len(a) - len(b)
+		}
+		// Same string up to letter case: order on the raw bytes.
+		return strings.Compare(rawA, rawB)
 	case []string:
 		return slices.CompareFunc(a, b.([]string), func(s1, s2 string) int {
 			return compare(s1, s2)
